@@ -361,6 +361,17 @@ class Daemon(object):
             data = serializer.loads(msg.data)
             if not isinstance(data, dict):
                 raise errors.ProtocolError("malformed connect message")
+            # the validator may inspect the call context: it describes this connect message and its connection
+            # (not the request that this thread happened to serve before, possibly another client's)
+            current_context.client = conn
+            try:
+                current_context.client_sock_addr = conn.sock.getpeername()
+            except (socket.error, AttributeError):
+                current_context.client_sock_addr = None   # (no peer address to be had from this connection)
+            current_context.seq = msg.seq
+            current_context.annotations = msg.annotations
+            current_context.msg_flags = msg.flags
+            current_context.serializer_id = msg.serializer_id
             handshake_response = self.validateHandshake(conn, data["handshake"])
             handshake_response = {
                 "handshake": handshake_response,
